@@ -33,6 +33,10 @@ CLAIMED = {
    text='TLC checks that the transcribed window loop of axis_window_items yields exactly the declared anchors and contiguous slices for every parameter combination of a small scope, and that the two grouping routes of the code (stable sort + cut at key transitions; unique keys + masks) agree and produce a partition with constant, distinct keys and original order (MC_C13); every enumerated case is replayed on the real iterators; recorded groupings (by values, 1-2 columns, label depth, both axes, object keys, with apply) and window iterations of random containers are validated by TLC (Trace_C13): IsPartition, group content = source taken at the members, apply labelled by key, windows = loop.',
    ref='DESIGN.md section 4 (C13)', note='NaN keys are outside the claim. The name carried by a group and the numeric class of a consolidated multi-column key (1 vs 1.0) are not observables.',
    technique='TLA+ spec SFGroup model checked with TLC; state dump replayed into the code; recorded iterations validated by a TLC trace spec'),
+ 'C06': dict(
+   text='TLC checks on every ordered pair of label sequences of a small scope that the reference route (union, re-index both operands, element-wise operator) meets the declarative label->value statement and that permuting either operand leaves the result map unchanged (MC_C06); every enumerated case is replayed on real Series; recorded index set operations and Series/Frame/Frame-Series/scalar operators (overlapping, disjoint, permuted, equal, empty label sets; str/int/mixed/tuple/date labels; square frames sharing one label pool on both axes; all layouts) are validated by TLC against SetOpOK / SeriesOpOK / FrameOpOK / FrameSeriesOpOK / ScalarOpOK (Trace_C06).',
+   ref='DESIGN.md section 4 (C06)', note='Values are compared as exact rationals / Booleans; the order of a union is chosen by the implementation except for equal operands.',
+   technique='TLA+ spec SFAlign model checked with TLC; state dump replayed into the code; recorded operations validated by a TLC trace spec'),
 }
 REASON_TODO = 'not yet built in this round: the specification module for this property is still being written (see DESIGN.md section 9)'
 ALL = ['C%02d' % i for i in range(1, 21)]
